@@ -45,6 +45,19 @@ RULE = ("values from one PRNG: scalars (None, bools, ints incl. big/negative, fi
         "(valid and invalid JSON, numbers, literals) for parse_tag_value / parse_tag_key_value vs model. distinct = distinct canonical values "
         "/ texts; non-trivial = a string that is not plain alphanumeric, or a compound value")
 
+LEVEL_TEXT = ("Proved in Lean on the model of the REPAIRED format_tag_value, for every JSON-compatible value and every int/float/json "
+              "implementation satisfying LexLaws: total (display never fails; needs no law), roundtrip (parse(format v) = v), "
+              "strings_stay_strings, key_value_roundtrip (key=display parses back to (key, v)); all full strength. On the model of the code "
+              "before the repair: formatOld_refuted_raises ('[abc' raises), formatOld_refuted_quoted ('\"abc\"' comes back as 'abc'), "
+              "formatOld_partial (round trip for everything that is not a string starting with [ { \"). toyLaws: the laws are consistent. "
+              "Tie: format_tag_value / parse_tag_value / parse_tag_key_value on generated values and raw command-line texts vs the model fed "
+              "with the real int()/float()/json answers; every law checked on the real functions per value; oracle = the round trip itself.")
+LEVEL_NOTE = ("The model mirrors /repo WITH harness/findings_proposed/C34-quote-json-like-strings.fix.diff; on a tree without it the check reports "
+              "VIOLATION with concrete replays ('\"abc\"', '[abc'), by design. int(), float(), json.loads, json.dumps are parameters with stated "
+              "laws (assumed, exercised on every run, not proved about CPython). NaN/Infinity, ints beyond the 4300-digit limit and lone "
+              "surrogates are outside 'JSON-compatible'. format_tag_key_value's trimming (display only) is not modelled.")
+TECHNIQUE = "Lean 4 proof parametric in the lexical functions (laws checked against CPython per case) + differential round-trip testing of redun.tags"
+
 ALPHA = "[{\"' ,\n0123456789abex.-+_=:}]\\tné١"
 
 
